@@ -6,6 +6,7 @@ import AsModel.Runtime.Label
 import AsModel.SExp
 import AsModel.Render
 import AsModel.RustPrims
+import AsModel.Exec
 /-!
 Line-protocol driver: one request per stdin line, one answer per stdout line.
 The Rust harnesses answer the same lines by calling the real code; the check
@@ -98,6 +99,17 @@ def answerTab (fields : List String) : String :=
           | some d => s!"{e.node}|{showSp d.loc}|{hex (errorLabel d.kind e.actual e.expected)}|{hex e.actual}|{match e.expected with | some x => hex x | none => "none"}"
           | none => s!"{e.node}|?|?|{hex e.actual}|?"
         "ok\t" ++ " ".intercalate shown
+    | _, _, _ => "bad-op"
+  -- execcmp <AST> <value> <meanings>: does the model of the expansion (exec ∘ expand) agree with the specification?
+  | ["execcmp", ast, val, ms] =>
+    match (SExp.parse ast).bind readPat, (SExp.parse val).bind readVal, (SExp.parse ms).bind readMeanings with
+    | some p, some v, some m =>
+      let a := frontier (rustPrims m) p v
+      let b := run (rustPrims m) (expand p) v
+      let sh (r : Option (List Entry)) : String := match r with
+        | none => "illtyped"
+        | some es => "[" ++ ",".intercalate (es.map showEntry) ++ "]"
+      if sh a == sh b then "same " ++ (if a.isSome then "ok" else "illtyped") else s!"diff spec={sh a} exec={sh b}"
     | _, _, _ => "bad-op"
   | _ => "bad-op"
 
